@@ -9,6 +9,15 @@ star arguments of unknown length: every expansion up to MaxExp elements / keys).
 C->S: the recorded observations are adjudicated by TLC against spec/trace/BinderTrace.tla, which first
 validates the oracle model against what CPython really did, then judges the real verdicts, then compares
 them with the implementation model (drift).  This file only records; it contains no binding rules.
+
+Callable kinds (third mechanism of the property, "signature extraction from runtime objects"): spec/CallableKinds.tla
+models, per kind of callable object (function, lambda, async def, functools.wraps wrapper, annotated function, static /
+class / instance method reached through the class, a known instance or a typed receiver, callable instance, class with
+__init__ / __new__ / both / inherited / none, dataclass, NamedTuple, functools.partial) which parameter list pyanalyze
+binds against which argument list (Impl, shaped like signature_from_value / _uncached_get_argspec / bind_self) and what
+evaluating the call does under CPython (Ref).  Cases are realised by harness/c05_kinds.py as real source checked by the
+real visitor (call in the defining module and, for every fourth module, in an importing module) and REALLY PERFORMED;
+spec/trace/CallableKindsTrace.tla judges.
 """
 from __future__ import annotations
 
@@ -18,6 +27,7 @@ import random
 import re
 from typing import Any, Optional
 
+from .. import c05_kinds as ck
 from .. import core, pyz
 
 LEVEL = "model_checking"
@@ -358,6 +368,198 @@ def _sample(cases: list[dict], limit: int, rnd: random.Random) -> tuple[list[dic
     return rnd.sample(conc, take_conc) + rnd.sample(unk, take_unk), False
 
 
+# ----------------------------------------------------------------------------- callable kinds (CallableKinds.tla)
+
+KIND_ACTIONS = [
+    "ChooseKind", "KAddParam", "EndParams", "ChoosePositional", "ChooseKeywords", "ChooseDstar",
+    "Route_Function", "Route_BoundMethodObject", "Route_UnboundMethodValue", "Route_ClassDropReceiver",
+    "Route_ClassStarReceiver", "Route_ClassFallbackBound", "Route_TypedCallDropReceiver", "Route_AnySignature",
+]
+KIND_GROUP = 60  # cases per generated module
+KIND_SELFTEST_TID = 10**8
+
+
+def _kinds_chunk(arg: tuple[int, list[dict], bool]) -> list[dict]:
+    base, part, imported = arg
+    vs = ck.visitor_observe(part, imported)
+    out = []
+    for i, (c, (v, vp)) in enumerate(zip(part, vs)):
+        cpy, exp = ck.real_cpython(c)
+        out.append({"tid": base + i, "case": c, "vis": v, "vispos": vp, "cpy": cpy, "exp": exp, "imp": imported})
+    return out
+
+
+def observe_kinds(cases: list[dict], imported: Optional[bool] = None) -> list[dict]:
+    """Every case through the real visitor and real CPython; every fourth generated module (or every / no module,
+    if `imported` is given) has its call sites in a module that imports the definitions."""
+    pyz.get_checker()  # create before forking
+    chunks = [(g, cases[g : g + KIND_GROUP], (g // KIND_GROUP) % 4 == 3 if imported is None else imported)
+              for g in range(0, len(cases), KIND_GROUP)]
+    parts = core.pmap(_kinds_chunk, chunks, chunk=1)
+    return [o for part in parts for o in part]
+
+
+def _kinds_selftest_observations() -> tuple[list[dict], dict[int, list[str]]]:
+    """Corrupted copies of real observations: TLC's verdict must flag each corruption (sensitivity of every
+    clause of CallableKindsTrace.tla).  Returns (observations, {tid: expected verdicts})."""
+    a = {"kind": "pk", "name": "a", "dflt": False}
+    one = dict(ck.NOCALL, pos=1)
+    good = _kinds_chunk((0, [{"kind": "meth", "via": "known", "sig": [a], "call": one},
+                             {"kind": "newstar", "via": "class", "sig": [a], "call": one},
+                             {"kind": "newstar", "via": "class", "sig": [a], "call": ck.NOCALL},
+                             {"kind": "bare", "via": "class", "sig": [], "call": one}], False))
+    t = KIND_SELFTEST_TID
+    meth, nsok, nsdev, bare = good
+    obs = [
+        dict(meth, tid=t),                                        # unchanged
+        dict(meth, tid=t + 1, vis="err"),                         # verdict flipped
+        dict(meth, tid=t + 2, cpy="err"),                         # recorded CPython outcome flipped
+        dict(meth, tid=t + 3, vispos=meth["vispos"][1:]),         # receiver missing from the recorded positions
+        dict(meth, tid=t + 4, vis="other diagnostic: not_callable"),
+        dict(nsdev, tid=t + 5),                                   # the known deviation as it is
+        dict(nsok, tid=t + 6, vis="err"),                         # inside a deviating kind, but not what its model predicts
+        dict(bare, tid=t + 7),
+    ]
+    hook = meth["vispos"] != ["nohook"]
+    expect = {
+        t: [], t + 1: ["viol:KindBinding", "drift:kind-verdict"], t + 2: ["oracle:kind-concrete-call"],
+        t + 3: ["drift:kind-hook-positions"] if hook else [], t + 4: ["viol:KindNoVerdict"],
+        t + 5: ["dev:init-ignored-when-new-defined"], t + 6: ["viol:KindBinding", "drift:kind-verdict"],
+        t + 7: ["dev:bare-class-accepts-arguments"],
+    }
+    return obs, expect
+
+
+def judge_kinds(check: core.Check, cases: list[dict], label: str, selftest: bool = False,
+                imported: Optional[bool] = None) -> None:
+    obs = observe_kinds(cases, imported)
+    expect: dict[int, list[str]] = {}
+    if selftest:
+        extra, expect = _kinds_selftest_observations()
+        obs = obs + extra
+    verdicts, stats = adjudicate_parallel("CallableKindsTrace", "CallableKindsTrace.cfg", obs, batch=3000, parallel=8)
+    for tid, want in expect.items():
+        got = verdicts.get(tid, [])
+        if sorted(got) != sorted(want):
+            raise core.MachineryError(f"callable-kinds trace self-test: observation {tid}: expected {want}, TLC said {got}")
+    if expect:
+        check.cov["sensitivity_kinds_trace"] = (
+            f"{len(expect)} corrupted / deviating observations adjudicated with the real ones: flipped verdict -> viol:KindBinding, "
+            "flipped CPython outcome -> oracle, dropped receiver position -> drift, foreign diagnostic -> viol:KindNoVerdict, "
+            "a verdict inside a deviating kind that its model does not predict -> viol (not dev)"
+        )
+    check.add_trace_stats(stats)
+    kc = check.cov.setdefault("kinds", {"observations": 0, "imported_call_sites": 0, "bind_hook_observations": 0, "per_kind_via": {}})
+    for o in obs:
+        if o["tid"] in expect:
+            continue
+        c = o["case"]
+        check.evals(1)
+        kc["observations"] += 1
+        kc["imported_call_sites"] += 1 if o["imp"] else 0
+        kc["bind_hook_observations"] += 1 if o["vispos"] not in (["none"], ["nohook"]) else 0
+        kv = c["kind"] + "/" + c["via"]
+        kc["per_kind_via"][kv] = kc["per_kind_via"].get(kv, 0) + 1
+        if c["sig"] and (c["call"]["kws"] or c["call"]["dstar"] != "none" or c["call"]["star"]["kind"] != "none"):
+            check.nontrivial(core.canon(c))
+        for v in verdicts.get(o["tid"], []):
+            r = ck.realise(c)
+            payload = {"case": c, "defs": r["defs"], "call": r["call"], "vis": o["vis"], "vispos": o["vispos"],
+                       "cpy": o["cpy"], "exp": o["exp"], "imported": o["imp"], "source": label}
+            if v.startswith("viol:"):
+                check.violation(core.canon(c), v[5:], payload)
+            elif v.startswith("dev:"):
+                check.violation(v[4:], v[4:], payload)  # class key, matched against known_findings.jsonl
+            elif v.startswith("drift:"):
+                check.drift({"verdict": v, **payload})
+            else:
+                raise core.MachineryError(f"{v} for {r['defs']} ; {r['call']}: {o}")
+    for o in obs[:: max(1, len(obs) // 3)][:3]:
+        r = ck.realise(o["case"])
+        check.sample({"source": label, "kind": o["case"]["kind"], "via": o["case"]["via"], "defs": r["defs"], "call": r["call"],
+                      "vis": o["vis"], "vispos": o["vispos"], "cpy": o["cpy"], "imported": o["imp"]}, limit=12)
+
+
+def _kinds_sample(cases: list[dict], limit: int, rnd: random.Random) -> tuple[list[dict], bool]:
+    """Stratified: the same share for every (kind, via), within it half statically known shapes and half
+    unknown-length star arguments."""
+    if len(cases) <= limit:
+        return cases, True
+    strata: dict[tuple, list[dict]] = {}
+    for c in cases:
+        strata.setdefault((c["kind"], c["via"], _is_unknown(c)), []).append(c)
+    share = max(1, limit // len(strata))
+    out: list[dict] = []
+    for key in sorted(strata):
+        part = strata[key]
+        out += part if len(part) <= share else rnd.sample(part, share)
+    rnd.shuffle(out)  # mix the kinds within every generated module
+    return out, False
+
+
+def run_kinds(check: core.Check, quick: bool, rnd: random.Random, emit_future: Any, cov_future: Any) -> None:
+    check.assumptions += [
+        "callable kinds: every body is trivial (pass / return object.__new__(cls)), so a TypeError raised by really evaluating "
+        "the call expression is a binding error; receivers are instances / classes created by the generated module; keywords "
+        "never spell a receiver parameter (self / cls) except through a **mapping of unknown keys",
+        "callable kinds excluded by design (recorded, not findings): objects with __call__ known as module-level VALUES "
+        "(callable instance, functools.partial object) get ANY_SIGNATURE (arg_spec.py:961 'just give up') -- for them only "
+        "'reported => TypeError' is demanded; builtins / typeshed signatures are out of scope; functools.wraps wrappers are bound "
+        "against their own parameters (follow_wrapped=False), which is what CPython does",
+    ]
+    # vacuity: every route action fires on the small coverage bound
+    cov = core.require_ok(cov_future.result(), "CallableKinds coverage")
+    core.require_coverage(cov, KIND_ACTIONS, "CallableKinds")
+    check.add_tlc("exhaustive+coverage:CallableKinds.cov.cfg", cov)
+    res = core.require_ok(emit_future.result(), "CallableKinds exhaustive")
+    check.add_tlc("exhaustive:CallableKinds.quick.cfg", res)
+    if quick:
+        cases = core.emitted_json(res)
+    else:
+        big = core.require_ok(core.run_tlc("CallableKinds", "CallableKinds.thorough.cfg", timeout=3300), "CallableKinds thorough")
+        check.add_tlc("exhaustive:CallableKinds.thorough.cfg", big)
+        del big
+        em = core.require_ok(core.run_tlc("CallableKindsEmit", "CallableKinds.emit.cfg", timeout=3000), "CallableKinds emit")
+        check.add_tlc("emit:CallableKinds.emit.cfg", em)
+        cases = core.emitted_json(em)
+        del em
+    if not cases:
+        raise core.MachineryError("no callable-kind cases emitted by TLC")
+    n_model = len(cases)
+    cases, exhaustive = _kinds_sample(cases, 9000 if quick else 150000, rnd)
+    judge_kinds(check, cases, "tlc-kinds", selftest=True)
+    kc = check.cov["kinds"]
+    kc.update({"model_cases": n_model, "replayed_cases": len(cases), "replay_exhaustive": exhaustive})
+    missing = sorted(k + "/" + v for k, vs in ck.KINDS_VIAS.items() for v in vs if k + "/" + v not in kc["per_kind_via"])
+    if missing:
+        raise core.MachineryError(f"callable kinds never replayed: {missing}")
+    # beyond the exhaustive bound: simulation up to 4 parameters beyond the receiver and wide calls
+    num = 1500 if quick else 40000
+    sim = core.require_ok(
+        core.run_tlc("CallableKindsEmit", "CallableKinds.sim.cfg", workers=1, simulate=f"num={num}", depth=12,
+                     seed=check.seed + 11, timeout=1800),
+        "CallableKinds simulate",
+    )
+    check.add_tlc("simulate:CallableKinds.sim.cfg", sim)
+    uniq = {core.canon(c): c for c in core.emitted_json(sim)}
+    kc["simulated_cases"] = len(uniq)
+    if len(uniq) < num // 4:
+        raise core.MachineryError(f"callable-kinds simulation produced only {len(uniq)} distinct cases")
+    sims = list(uniq.values())
+    if len(sims) > (1500 if quick else 40000):
+        sims = rnd.sample(sims, 1500 if quick else 40000)
+    judge_kinds(check, sims, "tlc-kinds-simulate")
+    check.cov["rule"] += "; callable kinds (CallableKinds.tla): see kinds.rule"
+    kc["rule"] = (
+        "cases = states with stage=done of CallableKinds.tla: (kind, via) x (signature of <=MaxParams parameters beyond the "
+        "receiver over 5 kinds x defaults, restricted to fields for dataclass / NamedTuple, empty for a bare class) x (call "
+        "shape as in Binder.tla); quick: CallableKinds.quick.cfg (<=2 parameters, <=1 positional, *() / *(x,) / *list / *tuple, "
+        "<=1 keyword, **{} / **dict) stratified sample per (kind, via, known/unknown shape); thorough: model checked on "
+        "CallableKinds.thorough.cfg (<=3 parameters, <=2 positionals, <=2 keywords, <=1 dict key), replayed from CallableKinds.emit.cfg (<=3 parameters, call bounds of the quick configuration); "
+        "plus simulation on CallableKinds.sim.cfg (<=4 parameters, <=3 positionals, <=3 keywords)"
+    )
+
+
 def run(check: core.Check) -> None:
     quick = check.tier == "quick"
     rnd = random.Random(check.seed)
@@ -375,6 +577,28 @@ def run(check: core.Check) -> None:
     # cases of a separate emission run on a middle bound, see 2.)
     # Vacuity control (-coverage 1 makes TLC about 3x slower): the quick bound is run with coverage in both
     # tiers -- every action of the machine must fire there; the two big thorough runs go without it.
+    from concurrent.futures import ThreadPoolExecutor
+
+    pool = ThreadPoolExecutor(6)
+    # beside the binder's exhaustive run: the exhaustive run and the coverage run of the callable-kinds machine (joined in
+    # run_kinds) and all sensitivity runs (seeded model bugs and the strict, deviation-free invariants must be rejected)
+    kinds_future = pool.submit(core.run_tlc, "CallableKindsEmit", "CallableKinds.quick.cfg", timeout=3000, workers=8)
+    kinds_cov_future = pool.submit(core.run_tlc, "CallableKinds", "CallableKinds.cov.cfg", coverage=True, timeout=900, workers=2)
+    sens_cfgs = (
+        ("Binder", "Binder.sens1.cfg", "ConcreteAgrees"),
+        ("Binder", "Binder.sens2.cfg", "ConcreteAgrees"),
+        ("Binder", "Binder.strict1.cfg", "RejectSoundStrict"),
+        ("Binder", "Binder.strict2.cfg", "AcceptSoundStrict"),
+        # callable kinds: a bound method bound without its receiver argument; a kw_only dataclass field taken as
+        # positional-or-keyword; __init__ consulted although a Python-level __new__ exists; the deviation-free invariants
+        ("CallableKinds", "CallableKinds.sens1.cfg", "KindConcrete"),
+        ("CallableKinds", "CallableKinds.sens2.cfg", "KindConcrete"),
+        ("CallableKinds", "CallableKinds.sens3.cfg", "KindConcrete"),
+        ("CallableKinds", "CallableKinds.strict1.cfg", "KindConcreteStrict"),
+        ("CallableKinds", "CallableKinds.strict2.cfg", "KindAcceptSoundStrict"),
+    )
+    sens_futures = [pool.submit(core.run_tlc, m, c, timeout=900, workers=2) for m, c, _ in sens_cfgs]
+    fixed_future = pool.submit(core.run_tlc, "Binder", "Binder.fixed.cfg", timeout=900, workers=4)
     res = core.require_ok(core.run_tlc("BinderEmit", "Binder.quick.cfg", coverage=True, timeout=3000), "Binder exhaustive")
     core.require_coverage(res, BIND_ACTIONS, "Binder")
     check.add_tlc("exhaustive+coverage:Binder.quick.cfg", res)
@@ -384,19 +608,13 @@ def run(check: core.Check) -> None:
             rb = core.require_ok(core.run_tlc("Binder", big, timeout=3300), "Binder exhaustive " + big)
             check.add_tlc("exhaustive:" + big, rb)
             del rb
-    # sensitivity: seeded model bugs and the strict (deviation-free) invariants must be rejected
+    sens_runs = [f.result() for f in sens_futures]
     sens = []
-    for scfg, inv in (
-        ("Binder.sens1.cfg", "ConcreteAgrees"),
-        ("Binder.sens2.cfg", "ConcreteAgrees"),
-        ("Binder.strict1.cfg", "RejectSoundStrict"),
-        ("Binder.strict2.cfg", "AcceptSoundStrict"),
-    ):
-        r = core.run_tlc("Binder", scfg, timeout=900, workers=4)
+    for (_mod, scfg, inv), r in zip(sens_cfgs, sens_runs):
         if r.violated != inv:
             raise core.MachineryError(f"sensitivity self-test failed: {scfg} did not violate {inv} ({r.error})")
         sens.append(f"{scfg} violates {inv}")
-    fixed = core.run_tlc("Binder", "Binder.fixed.cfg", timeout=900, workers=4)
+    fixed = fixed_future.result()
     if not fixed.ok:
         raise core.MachineryError(f"the model with both proposed repairs does not satisfy the strict invariants: {fixed.error}")
     check.cov["sensitivity"] = "; ".join(sens) + "; Binder.fixed.cfg (both proposed repairs on) satisfies the strict invariants"
@@ -435,10 +653,16 @@ def run(check: core.Check) -> None:
     if len(uniq) < num // 4:
         raise core.MachineryError(f"simulation produced only {len(uniq)} distinct cases")
     judge(check, list(uniq.values()), "tlc-simulate", n_visitor=600 if quick else 6000, rnd=rnd)
+    # 4. the kind of callable object and the access path (signature extraction from runtime objects)
+    run_kinds(check, quick, rnd, kinds_future, kinds_cov_future)
+    pool.shutdown()
 
 
 def replay(check: core.Check, witness: dict) -> None:
-    judge(check, [witness["case"]], "replay", n_visitor=1)
+    if "kind" in witness["case"]:
+        judge_kinds(check, [witness["case"]], "replay", imported=bool(witness.get("imported")))
+    else:
+        judge(check, [witness["case"]], "replay", n_visitor=1)
 
 
 def selftest_binding(check: core.Check) -> None:
@@ -453,8 +677,17 @@ def selftest_binding(check: core.Check) -> None:
     variants["recorded position changed"] = v
     v = dict(good, tid=3, cpy="err")
     variants["recorded CPython outcome flipped"] = v
+    # inside a known-deviation region (surplus keyword z behind a **mapping of unknown keys), but with a verdict the
+    # model of the deviating mechanism does not predict (it rejects: too many positionals): a violation, not dev:
+    sig1 = [{"kind": "pk", "name": "a", "dflt": False}]
+    call1 = {"pos": 2, "star": {"kind": "none", "n": 0}, "post": 0, "kws": ["z"], "dstar": "dict", "dkeys": []}
+    region = observe_one((4, {"sig": sig1, "call": call1}))
+    variants["deviating region, real verdict as modelled (rejected)"] = region
+    variants["deviating region, real verdict not as modelled"] = dict(
+        region, tid=5, real={"verdict": "ok", "positions": ["P0"], "errclass": ""})
     verdicts, _ = core.adjudicate("BinderTrace", TRACE_CFG, list(variants.values()))
-    expect = {0: [], 1: ["viol:ConcreteAgrees", "drift:verdict"], 2: ["drift:positions"], 3: ["oracle:concrete-call"]}
+    expect = {0: [], 1: ["viol:ConcreteAgrees", "drift:verdict"], 2: ["drift:positions"], 3: ["oracle:concrete-call"],
+              4: [], 5: ["viol:AcceptSound", "drift:verdict"]}
     for (name, o) in variants.items():
         got = verdicts.get(o["tid"], [])
         print(f"selftest-binding: {name}: TLC verdicts {got}")
